@@ -51,8 +51,14 @@ ENTRY = {'ident': '_atom_identifiers', 'chains': '_chains', 'frags': '_fragments
          'hash': 'hash(tuple)'}
 
 
+_state = {}
+
+
 def generate(ctx):
-    return []
+    from ..gen import gen_c17
+    path, methods, keep, defaults = gen_c17.generate()
+    _state.update(methods=methods, keep=keep, defaults=dict(defaults))
+    return [path]
 
 
 # ------------------------------------------------------------------------------------------------
@@ -371,7 +377,7 @@ def correspond(ctx):
             ctx.dist('out-of-grid-params')
         if real[0].startswith('crash'):
             ctx.broke('correspondence', ENTRY[op], f'real code raised {real[0]} on {name} params={params}')
-            _remember(ctx, _shrink_note(op, params, name, line))
+            _remember(ctx, _shrink_note(op, params, name, line), mol)
             continue
         if resp is None:
             continue
@@ -381,12 +387,12 @@ def correspond(ctx):
             continue
         if op in ('lfp', 'mfp') and real[0] == 'shape':
             ctx.broke('correspondence', ENTRY[op], f'fingerprint array has wrong shape/values on {name} params={params}')
-            _remember(ctx, _shrink_note(op, params, name, line))
+            _remember(ctx, _shrink_note(op, params, name, line), mol)
             continue
         if model != real:
             ctx.cov['disagreements_checked'] += 1
             ctx.broke('correspondence', ENTRY[op], f'{name} params={params}: real={_short(real)} model={_short(model)}')
-            _remember(ctx, _shrink_note(op, params, name, line))
+            _remember(ctx, _shrink_note(op, params, name, line), mol)
         elif len(ctx.cov['samples']) < 6 and len(mol._atoms) >= 3 and op in ('lhs', 'mhs', 'lbs', 'frags', 'chains', 'mbs'):
             if not any(s['op'] == op for s in ctx.cov['samples']):
                 ctx.sample({'op': op, 'entry': ENTRY[op], 'params': list(params), 'molecule': name,
@@ -417,6 +423,9 @@ def correspond(ctx):
                         ctx.fail(f'C17/numbering-dependence/{ENTRY[op]}', what, inp)
                     else:
                         ctx.broke('relational', 'numbering/' + ENTRY[op], f'{base[0]} vs {vname} params={params}')
+
+    history_stream(ctx)
+    defaults_stream(ctx, [m for m in mols if 2 <= len(m[1]._atoms) <= 40][:30 if ctx.quick else 300])
 
     # folding on arbitrary ints, both copies of the loop
     freqs = fold_requests(ctx)
@@ -456,8 +465,9 @@ def _short(x, n=300):
     return s if len(s) <= n else s[:n] + '…'
 
 
-def _remember(ctx, note):
-    ctx.__dict__.setdefault('c17_suspects', []).append(note)
+def _remember(ctx, note, mol=None):
+    """keep the disagreeing case (and the live molecule object) as a starting point for the search"""
+    ctx.__dict__.setdefault('c17_suspects', []).append((note, mol))
 
 
 # ------------------------------------------------------------------------------------------------
@@ -635,6 +645,17 @@ def _full_params(op, params):
     return (lo, hi, length, nab, nbp)
 
 
+def _safe_renumber(rng, mol):
+    try:
+        return molgen.renumber(rng, mol)[0]
+    except Exception:
+        try:   # molecules rebuilt from the wire carry no labels: recompute them on a private copy first
+            m2, _ = wire.ints_to_mol(wire.mol_to_ints(mol), calc=True)
+            return molgen.renumber(rng, m2)[0]
+        except Exception:
+            return None
+
+
 def search(ctx):
     """Property-level oracle on the real code, starting at the disagreeing cases, then their neighbourhood, then a sweep."""
     import time
@@ -650,38 +671,67 @@ def search(ctx):
         ctx.dist('search:cases')
         try:
             res = list(property_checks(mol, *p))
-            if mol2 is not None:
-                res += list(numbering_checks(mol, mol2, *p))
         except Exception as e:
             res = [(f'C17/exception/{type(e).__name__}', f'fingerprint call raised {type(e).__name__}: {e} inside the documented grid')]
+        if mol2 is not None:
+            try:
+                res += list(numbering_checks(mol, mol2, *p))
+            except Exception as e:
+                ctx.notes.append(f'search: numbering check raised {type(e).__name__}')
         for sig, what in res:
             if sig in seen_sigs:
                 continue
             seen_sigs.add(sig)
             inp = {'kind': 'molecule', 'params': list(p), 'mol': wire.mol_to_ints(mol)}
-            if mol2 is not None:
+            if mol2 is not None and 'numbering' in sig:
                 inp['mol2'] = wire.mol_to_ints(mol2)
             ctx.fail(sig, what, inp)
 
     suspects = ctx.__dict__.get('c17_suspects', [])
-    for s in suspects[:40]:
-        if s['op'] == 'fold':
-            for sig, what in fold_checks(s['length'], s['nab'], s['hashes']):
-                if s['length'] >= 1 and s['length'] & (s['length'] - 1) == 0 and s['nab'] >= 1 and sig not in seen_sigs:
-                    seen_sigs.add(sig)
-                    hs = s['hashes']
-                    for h in hs:   # shrink to one hash
-                        if any(g == sig for g, _ in fold_checks(s['length'], s['nab'], [h])):
-                            hs = [h]
-                            break
-                    ctx.fail(sig, what, {'kind': 'fold', 'length': s['length'], 'nab': s['nab'], 'hashes': hs})
-            continue
-        mol, _ = wire.ints_to_mol(s['mol'])
-        hint = _full_params(s['op'], s['params'])
-        for p in _grid_params_near(rng, hint, 6):
-            run(mol, p, molgen.renumber(rng, mol)[0])
-            if time.time() - t0 > budget / 2:
-                break
+    # one suspect per (entry point, parameter tuple) first, smallest molecules first
+    suspects = sorted(suspects, key=lambda nm: len(nm[0].get('mol', ())))
+    picked, keys = [], set()
+    for note, mol in suspects:
+        k = (note['op'], tuple(note.get('params', ())))
+        if k not in keys:
+            keys.add(k)
+            picked.append((note, mol))
+    picked += [x for x in suspects if x not in picked][:40]
+    for note, mol in picked[:120]:
+        if time.time() - t0 > budget / 2:
+            break
+        try:
+            if note['op'] == 'fold':
+                if note['length'] >= 1 and note['length'] & (note['length'] - 1) == 0 and note['nab'] >= 1:
+                    for sig, what in fold_checks(note['length'], note['nab'], note['hashes']):
+                        if sig not in seen_sigs:
+                            seen_sigs.add(sig)
+                            hs = next(([h] for h in note['hashes']
+                                       if any(g == sig for g, _ in fold_checks(note['length'], note['nab'], [h]))), note['hashes'])
+                            ctx.fail(sig, what, {'kind': 'fold', 'length': note['length'], 'nab': note['nab'], 'hashes': hs})
+                continue
+            if note['op'] == 'history':
+                fails, what = probe(note['input'])
+                if fails and note['sig'] not in seen_sigs:
+                    seen_sigs.add(note['sig'])
+                    ctx.fail(note['sig'], what, note['input'])
+                continue
+            if mol is None:
+                mol, _ = wire.ints_to_mol(note['mol'])
+            hint = _full_params(note['op'], note['params'])
+            mol2 = _safe_renumber(rng, mol)
+            if in_grid(*hint):
+                run(mol, hint, mol2)
+            else:   # the disagreement was outside the documented grid: look at the nearest in-grid parameters
+                lo, hi, length, nab, nbp = hint
+                lo = max(1, lo)
+                hi = max(lo, min(hi, 6))
+                length = length if (length >= 1 and length & (length - 1) == 0) else 1024
+                run(mol, (lo, hi, length, max(nab, 1), max(nbp, 0)), mol2)
+            for pp in _grid_params_near(rng, None, 3):
+                run(mol, pp, mol2)
+        except Exception as e:
+            ctx.notes.append(f'search: suspect {note.get("op")} raised {type(e).__name__}: {e}')
     # fold sweep (cheap)
     for length, nab, hs in fold_requests(ctx):
         if length >= 1 and length & (length - 1) == 0 and nab >= 1:
@@ -690,25 +740,260 @@ def search(ctx):
                     seen_sigs.add(sig)
                     one = next(([h] for h in hs if any(g == sig for g, _ in fold_checks(length, nab, [h]))), hs)
                     ctx.fail(sig, what, {'kind': 'fold', 'length': length, 'nab': nab, 'hashes': one})
-    # general sweep: small graphs first (smallest counterexamples), then corpus
+    # history sweep
+    for inp in history_cases(ctx, 25 if ctx.quick else 200):
+        if time.time() - t0 > budget * 0.75:
+            break
+        try:
+            fails, what = probe(inp)
+        except Exception as e:
+            ctx.notes.append(f'search: history case raised {type(e).__name__}')
+            continue
+        sig = 'C17/history-dependence/' + inp['edits'][-1][0]
+        if fails and sig not in seen_sigs:
+            seen_sigs.add(sig)
+            ctx.fail(sig, what, inp)
+    # general sweep: small graphs first (smallest counterexamples), then corpus; systematic radii on the small ones
     pool = [m for m in molecules(ctx)]
     pool.sort(key=lambda nm: len(nm[1]._atoms))
-    for name, mol in pool:
+    for idx, (name, mol) in enumerate(pool):
         if time.time() - t0 > budget:
             ctx.notes.append('search budget exhausted')
             break
-        try:
-            mol2 = molgen.renumber(rng, mol)[0]
-        except Exception:
-            mol2 = None
-        for p in _grid_params_near(rng, None, 2):
-            run(mol, p, mol2)
+        mol2 = _safe_renumber(rng, mol)
+        plist = _grid_params_near(rng, None, 2)
+        if 2 <= len(mol._atoms) <= 8 and idx % 7 == 0:
+            plist += [(lo, hi, 64, 3, 2) for lo, hi in RADII]
+        for pp in plist:
+            try:
+                run(mol, pp, mol2)
+            except Exception as e:
+                ctx.notes.append(f'search: sweep raised {type(e).__name__}')
     ctx.cov['search_signatures'] = sorted(seen_sigs)
+
+
+# ------------------------------------------------------------------------------------------------
+# history: fingerprint -> edit through the public API -> fingerprint on the SAME object
+# ------------------------------------------------------------------------------------------------
+
+NOARG_EDITS = ['explicify_hydrogens', 'implicify_hydrogens', 'kekule', 'thiele', 'remove_coordinate_bonds', 'neutralize',
+               'standardize', 'canonicalize', 'clean_stereo', 'standardize_charges', 'clean_isotopes']
+
+
+def apply_edit(mol, edit):
+    """one structure edit through the public API; returns the object to continue with (a copy for 'copy')"""
+    kind = edit[0]
+    if kind == 'copy':
+        return mol.copy()
+    if kind in NOARG_EDITS:
+        getattr(mol, kind)()
+    elif kind == 'delete_atom':
+        mol.delete_atom(edit[1])
+    elif kind == 'delete_bond':
+        mol.delete_bond(edit[1], edit[2])
+    elif kind == 'add_atom_bond':
+        k = mol.add_atom(edit[2])
+        mol.add_bond(edit[1], k, edit[3])
+    elif kind == 'add_bond':
+        mol.add_bond(edit[1], edit[2], edit[3])
+    elif kind == 'charge':
+        with mol:
+            mol.atom(edit[1]).charge = edit[2]
+    elif kind == 'radical':
+        with mol:
+            mol.atom(edit[1]).is_radical = bool(edit[2])
+    elif kind == 'isotope':
+        with mol:
+            mol.atom(edit[1]).isotope = edit[2]
+    elif kind == 'aborted_charge':
+        try:
+            with mol:
+                mol.atom(edit[1]).charge = edit[2]
+                raise RuntimeError('abort the transaction')
+        except RuntimeError:
+            pass
+    else:
+        raise ValueError(kind)
+    return mol
+
+
+def random_edit(rng, mol):
+    atoms = list(mol._atoms)
+    bonds = [(n, m) for n, m, _ in mol.bonds()]
+    r = rng.random()
+    if r < 0.45 or not atoms:
+        return [rng.choice(NOARG_EDITS)]
+    if r < 0.55:
+        return ['delete_atom', rng.choice(atoms)]
+    if r < 0.65 and bonds:
+        return ['delete_bond', *rng.choice(bonds)]
+    if r < 0.75:
+        return ['add_atom_bond', rng.choice(atoms), rng.choice(['C', 'N', 'O', 'F']), 1]
+    if r < 0.8 and len(atoms) > 2:
+        a, b = rng.sample(atoms, 2)
+        if b not in mol._bonds[a]:
+            return ['add_bond', a, b, 1]
+    if r < 0.87:
+        return ['charge', rng.choice(atoms), rng.choice([-1, 1])]
+    if r < 0.91:
+        return ['radical', rng.choice(atoms), 1]
+    if r < 0.95:
+        return ['aborted_charge', rng.choice(atoms), 1]
+    return ['copy']
+
+
+def history_cases(ctx, n):
+    """n inputs {'kind': 'history', 'smiles', 'edits', 'params'}: SMILES from the corpus / hand-made set, 1-2 edits, grid parameters"""
+    rng = ctx.rng
+    smis = list(molgen.HANDMADE) + rng.sample(molgen.corpus_smiles(), min(n, 400))
+    out = []
+    tries = 0
+    while len(out) < n and tries < 20 * n:
+        tries += 1
+        smi = rng.choice(smis)
+        mol = molgen.parse(smi)
+        if mol is None or len(mol._atoms) > 40:
+            continue
+        edits = []
+        m = mol
+        try:
+            for _ in range(rng.choice([1, 1, 2])):
+                e = random_edit(rng, m)
+                m = apply_edit(m, e)
+                edits.append(e)
+        except Exception:
+            continue   # the edit itself is not applicable to this molecule (C13/C14 domain, not ours)
+        lo, hi = rng.choice(RADII)
+        while not _n_paths_ok(m, hi) or (hi > 4 and len(m._atoms) > 25):
+            hi -= 1
+            lo = min(lo, hi)
+        out.append({'kind': 'history', 'smiles': smi, 'edits': edits,
+                    'params': [lo, hi, rng.choice([64, 256, 1024, 4096]), rng.randint(1, 4), rng.randint(0, 5)]})
+    return out
+
+
+HIST_OPS = (('chains', lambda p: (p[0], p[1])), ('frags', lambda p: (p[0], p[1])), ('lhs', lambda p: (p[0], p[1], p[4])),
+            ('lbs', lambda p: p), ('lfp', lambda p: p), ('mdict', lambda p: (p[0], p[1])), ('mhs', lambda p: (p[0], p[1])),
+            ('mbs', lambda p: p[:4]), ('mfp', lambda p: p[:4]), ('ident', lambda p: ()))
+
+
+def run_history(inp):
+    """fingerprint -> edit -> fingerprint … on one object. Returns (object after the last edit, {op: result on that object},
+    {op: result on a freshly built molecule with exactly the same atoms and bonds})."""
+    from chython import smiles
+    mol = smiles(inp['smiles'])
+    p = tuple(inp['params'])
+    for e in inp['edits']:
+        for op, sel in HIST_OPS:     # warm every cache there might be, with the same parameters
+            real_eval(op, tuple(sel(p)), mol)
+        mol = apply_edit(mol, e)
+    post = {op: real_eval(op, tuple(sel(p)), mol) for op, sel in HIST_OPS}
+    fresh, _ = wire.ints_to_mol(wire.mol_to_ints(mol))
+    ref = {op: real_eval(op, tuple(sel(p)), fresh) for op, sel in HIST_OPS}
+    return mol, post, ref
+
+
+def history_stream(ctx):
+    cases = history_cases(ctx, 40 if ctx.quick else 400)
+    lines, meta = [], []
+    for inp in cases:
+        try:
+            mol, post, ref = run_history(inp)
+        except Exception as e:
+            ctx.dist('history:edit-not-applicable')
+            continue
+        p = tuple(inp['params'])
+        line = wire.mol_to_line(mol)
+        last = inp['edits'][-1][0]
+        ctx.dist('history:' + last)
+        for op, sel in HIST_OPS:
+            ctx.count(('history', op, tuple(sel(p)), inp['smiles'], json.dumps(inp['edits'])), True)
+            if post[op] != ref[op]:
+                ctx.cov['disagreements_checked'] += 1
+                sig = f'C17/history-dependence/{last}'
+                ctx.broke('relational', f'history/{ENTRY[op]}', f'{inp["smiles"]} after {inp["edits"]}: same object '
+                          f'{_short(post[op], 120)} vs freshly built {_short(ref[op], 120)}')
+                _remember(ctx, {'op': 'history', 'input': inp, 'sig': sig})
+            if op not in ('lfp', 'mfp'):
+                lines.append(model_line(op, tuple(sel(p)), line))
+                meta.append((op, tuple(sel(p)), inp, post[op]))
+    if ctx.build_ok and lines:
+        resp = run_driver('C17', lines)
+        for (op, params, inp, post), r in zip(meta, resp):
+            model = parse_model(op, r)
+            if model != post:
+                ctx.cov['disagreements_checked'] += 1
+                ctx.broke('correspondence', ENTRY[op] + '@after-edit', f'{inp["smiles"]} after {inp["edits"]} params={params}: '
+                          f'real={_short(post, 120)} model={_short(model, 120)}')
+                _remember(ctx, {'op': 'history', 'input': inp, 'sig': 'C17/history-dependence/' + inp['edits'][-1][0]})
+
+
+def defaults_stream(ctx, mols):
+    """entry points called without arguments vs the model called with the regenerated default values"""
+    d = _state.get('defaults')
+    if not d or not ctx.build_ok:
+        return
+    def dv(meth, *names):
+        vals = dict(d[meth])
+        return tuple(vals[n] for n in names)
+    plan = [('lhs', 'linear_hash_set', ('min_radius', 'max_radius', 'number_bit_pairs')),
+            ('lbs', 'linear_bit_set', ('min_radius', 'max_radius', 'length', 'number_active_bits', 'number_bit_pairs')),
+            ('lbs', 'linear_fingerprint', ('min_radius', 'max_radius', 'length', 'number_active_bits', 'number_bit_pairs')),
+            ('mhs', 'morgan_hash_set', ('min_radius', 'max_radius')),
+            ('mbs', 'morgan_bit_set', ('min_radius', 'max_radius', 'length', 'number_active_bits')),
+            ('mbs', 'morgan_fingerprint', ('min_radius', 'max_radius', 'length', 'number_active_bits')),
+            ('chains', '_chains', ('min_radius', 'max_radius')), ('frags', '_fragments', ('min_radius', 'max_radius')),
+            ('mdict', '_morgan_hash_dict', ('min_radius', 'max_radius'))]
+    lines, meta = [], []
+    for name, mol in mols:
+        line = wire.mol_to_line(mol)
+        for op, meth, names in plan:
+            try:
+                params = dv(meth, *names)
+            except KeyError:
+                ctx.broke('translator', 'defaults', f'{meth} lost a default parameter')
+                return
+            lines.append(model_line(op, params, line))
+            meta.append((op, meth, params, name, mol))
+    resp = run_driver('C17', lines)
+    for (op, meth, params, name, mol), r in zip(meta, resp):
+        try:
+            v = getattr(mol, meth)()
+            if meth.endswith('_fingerprint'):
+                real = ('ok', [i for i, x in enumerate(v) if x])
+            elif op == 'frags':
+                real = ('ok', sorted((tuple(k), sorted(tuple(q) for q in ps)) for k, ps in v.items()))
+            elif op == 'mdict':
+                real = ('ok', [sorted(x.items()) for x in v])
+            elif op == 'chains':
+                real = ('ok', sorted(tuple(q) for q in v))
+            else:
+                real = ('ok', sorted(v))
+        except Exception as e:  # noqa
+            real = (_err(e), None)
+        ctx.count(('default-args', meth, wire.mol_to_line(mol)), len(mol._atoms) >= 2)
+        ctx.dist('op:default-args')
+        if parse_model(op, r) != real:
+            ctx.cov['disagreements_checked'] += 1
+            ctx.broke('correspondence', meth + '()', f'{name}: call without arguments differs from the model at the defaults {params}')
+            _remember(ctx, _shrink_note(op, params, name, wire.mol_to_line(mol)), mol)
 
 
 def probe(inp):
     """Re-execute ONE input on the real code: does the property fail on it?"""
     kind = inp.get('kind')
+    if kind == 'history':
+        try:
+            mol, post, ref = run_history(inp)
+        except Exception as e:
+            return False, f'edit sequence not applicable: {type(e).__name__}: {e}'
+        bad = [op for op in post if post[op] != ref[op]]
+        if bad:
+            op = bad[0]
+            return True, (f'{inp["smiles"]}: after fingerprint -> {inp["edits"]} -> fingerprint on the same object, '
+                          f'{", ".join(ENTRY[o] for o in bad)} differ from a freshly built molecule with the same atoms and bonds '
+                          f'(params {inp["params"]}); e.g. {ENTRY[op]}: {_short(post[op], 120)} vs {_short(ref[op], 120)}')
+        return False, 'results after the edits equal those of a freshly built molecule'
     if kind == 'fold':
         res = list(fold_checks(inp['length'], inp['nab'], inp['hashes']))
         return bool(res), '; '.join(w for _, w in res) or 'folding follows the documented windows and stays below length'
